@@ -2,6 +2,7 @@
 import json
 
 import gen
+import chainhist
 import vlib
 from vlib import Recorder, Report, b2l, call, exc_info, nat, text
 
@@ -241,7 +242,8 @@ def run(tier):
     mm = vlib.validate("Trace_Rpc", recs)
     rep.apply_mismatches(recs, mm)
     calls = [x for x in recs if x["op"] == "rpc.call"]
-    rep.cov["evaluations"] = len(calls)
+    nchain = chainhist.run_for(rep, "C19", tier)
+    rep.cov["evaluations"] = nchain + len(calls)
     rep.cov["traces_validated_against_impl"] = len({x["tid"] for x in recs})
     rep.cov["methods"] = sorted({x["in"]["method"] for x in calls})
     rep.cov["amounts_checked"] = sum(len(x["out"]["sent_amounts"]) + len(x["out"]["recv_amounts"]) for x in calls)
